@@ -10,7 +10,7 @@ from ..oracle import check, eq, lib
 from ..ref import naming
 from ..ref import programs as P
 from ..ref import tlv
-from ..runner import Sub
+from ..runner import Sub, Violation
 
 PROPERTY = "C02"
 LEVEL = "exploration"
@@ -259,4 +259,55 @@ def execute(case, stats):
     stats.note(case, nrec >= 3 and bool(feats), classes=feats + ["end_" + end, "records_%s" % ("0" if nrec == 0 else "1-2" if nrec < 3 else "3+")])
 
 
-SUBS = [Sub("decode_views", execute, strategy=case_strategy, examples={"quick": 6400, "thorough": 128000})]
+# ------------------------------------------------------------------------------------------ atheris differential (thorough)
+import collections
+
+COUNTERS = collections.Counter()
+
+
+def fuzz_block(data: bytes):
+    """Coverage-guided differential target: arbitrary block bytes, library decode vs reference decode."""
+    from dissect.cobaltstrike.beacon import BeaconConfig
+
+    data = bytes(data)
+    ref = tlv.decode(data)
+    c = lib(BeaconConfig, data, what="BeaconConfig(block)")
+    got = [(s.index.value, s.type.value, s.length, bytes(s.value)) for s in c.settings_tuple]
+    if got != ref:
+        raise Violation("decode:settings_tuple", f"block {data[:80].hex()}... ({len(data)} bytes): library {got[:3]!r}... reference {ref[:3]!r}...")
+    eq(lib(lambda: c.setting_enums), [r[0] for r in ref], "decode:setting_enums", "setting_enums")
+    order = list(dict.fromkeys(r[0] for r in ref))
+    both36 = len({("s" if r[1] == 1 else "o") for r in ref if r[0] == 36}) > 1
+    if not both36:
+        eq(list(lib(lambda: c.raw_settings_by_index).keys()), order, "views:const_order", "raw_settings_by_index key order")
+        m = lib(c.settings_map, index_type="const", pretty=False, parse=False)
+        for idx in order:
+            check(any(r[3] == bytes(m[idx]) for r in ref if r[0] == idx), "values:unparsed_wrong", f"index {idx}: {bytes(m[idx])[:20]!r}")
+    COUNTERS["records_%s" % ("0" if not ref else "1-2" if len(ref) < 3 else "3+")] += 1
+
+
+def fuzz_execute(case, stats):
+    fuzz_block(case["data"])
+    stats.note(case, len(tlv.decode(case["data"])) >= 3, classes=["fuzz_replay"])
+
+
+def fuzz_custom(tier, seed, shard, nshards, stats, rec):
+    if tier != "thorough":
+        return
+    from ..fuzz.run import campaign
+
+    seeds = []
+    if shard % 2 == 0:  # half of the campaigns start from small valid blocks, half from an empty corpus
+        seeds = [
+            tlv.encode([(1, 1, b"\x00\x08"), (2, 1, b"\x01\xbb"), (3, 2, b"\x00\x00\xea\x60")]),
+            tlv.encode([(1, 1, b"\x00\x00"), (9, 3, b"U" * 0x80), (36, 1, b"\x00\x01")]) + b"trailing",
+            tlv.encode([(6969, 3, b"abc"), (36, 3, b"hash\x00"), (16, 1, b"\x00\x02"), (16, 1, b"\x00\x01")], terminator=False),
+        ]
+    campaign("harness.props.c02", "fuzz_block", seeds, runs=150000, seed=seed, stats=stats, max_len=1024)
+    stats.note({"shard": shard, "seeded": bool(seeds)}, True, classes=["atheris_campaign_seeded" if seeds else "atheris_campaign_empty_corpus"])
+
+
+SUBS = [
+    Sub("decode_views", execute, strategy=case_strategy, examples={"quick": 6400, "thorough": 128000}),
+    Sub("atheris_differential", fuzz_execute, custom=fuzz_custom, shards={"quick": 1, "thorough": 4}),
+]
